@@ -298,3 +298,32 @@ func verifC13SameName() {
 		}
 	}
 }
+
+// (i)+(ii)+(iv) together: a temporary file left behind by an interrupted call (durable, any length up
+// to 4, planted at both places an implementation may keep it) AND a crash at any point of the next
+// call, or right after it returned: what survives under dir/name is the old file or exactly data —
+// never data followed by the tail of the leftover, whatever order the implementation flushes in.
+func verifC13CrashWithLeftover() {
+	fs, root := verifC13Setup()
+	dir, name := "d0", "a"
+	path := root + "/" + dir + "/" + name
+	left := verifNondetBytes("left", 1+verifChoose(4))
+	verifKernelPlantFile(root+"/"+name+".tmp", left, uint64(len(left)))
+	verifKernelPlantFile(path+".tmp", left, uint64(len(left)))
+	oldExists := verifChoose(2) == 1
+	var old []byte
+	if oldExists {
+		old = verifNondetBytes("old", verifChoose(3))
+		verifKernelPlantFile(path, old, uint64(len(old)))
+	}
+	data := verifNondetBytes("data", verifChoose(3))
+	verifKernelCrashAt(1 + verifChoose(8))
+	crashed := verifCrashed(func() { fs.AtomicCreate(dir, name, data) })
+	verifAssert("leftover-crash/instant-old-or-new", verifOr(verifStateIs(path, oldExists, old), verifStateIs(path, true, data)))
+	if !crashed {
+		verifAssert("leftover-crash/return-exact-content", verifStateIs(path, true, data))
+	}
+	verifKernelReboot()
+	verifAssert("leftover-crash/old-or-new", verifOr(verifStateIs(path, oldExists, old), verifStateIs(path, true, data)))
+	verifCover("c13/leftover-crash")
+}
